@@ -47,7 +47,8 @@ func (f *fctx[S, P]) sc(x *big.Int) S {
 	if x.Sign() < 0 || x.Cmp(f.q) >= 0 {
 		panic(fmt.Sprintf("harness: scalar %s out of range for %s", x.Text(16), f.name))
 	}
-	s, err := f.fld.FromBytesBE(x.Bytes())
+	// FromBytesBE wants exactly ElementSize() big-endian bytes
+	s, err := f.fld.FromBytesBE(x.FillBytes(make([]byte, f.fld.ElementSize())))
 	if err != nil {
 		panic(fmt.Sprintf("harness: FromBytesBE(%s) on %s: %v", x.Text(16), f.name, err))
 	}
@@ -219,11 +220,12 @@ func (f *fctx[S, P]) ptsEqualExps(ps []P, ks []*big.Int) (bool, string) {
 // verdict of the property's own predicate on the implementation (prop == "" : holds), and
 // finish, which applies relation R once the model's answers are known.
 type Pending struct {
-	c      *Case
-	lines  []string
-	prop   string // property predicate failure on the implementation alone ("" = holds)
-	triv   bool   // rejected at the first guard
-	finish func(model []string) []diff
+	c       *Case
+	lines   []string
+	prop    string // property predicate failure on the implementation alone ("" = holds)
+	triv    bool   // rejected at the first guard
+	outcome string // implementation's status class (distribution only)
+	finish  func(model []string) []diff
 }
 
 type diff struct {
@@ -365,6 +367,7 @@ func (f *fctx[S, P]) runSolve(c *Case, right bool) *Pending {
 			p.lines = append(p.lines, f.line(rline, vecText(xs), M.text()))
 		}
 	}
+	p.outcome = class
 	p.finish = func(model []string) []diff {
 		mst, mpl := splitModel(model[0])
 		var ds []diff
@@ -440,6 +443,7 @@ func (f *fctx[S, P]) runInv(c *Case) *Pending {
 		}
 	}
 	p.lines = []string{f.line("INV", M.text())}
+	p.outcome = class
 	p.finish = func(model []string) []diff {
 		mst, mpl := splitModel(model[0])
 		if !compatible(mst, class) {
@@ -489,6 +493,7 @@ func (f *fctx[S, P]) runDet(c *Case) *Pending {
 		p.prop = "Determinant refused a square matrix"
 	}
 	p.lines = []string{f.line("DET", M.text())}
+	p.outcome = class
 	p.finish = func(model []string) []diff {
 		mst, mpl := splitModel(model[0])
 		if !compatible(mst, class) {
@@ -532,6 +537,7 @@ func (f *fctx[S, P]) runMul(c *Case) *Pending {
 		p.triv = true
 	}
 	p.lines = []string{f.line("MUL", A.text(), B.text())}
+	p.outcome = class
 	p.finish = func(model []string) []diff {
 		mst, mpl := splitModel(model[0])
 		if !compatible(mst, class) {
@@ -559,6 +565,7 @@ func (f *fctx[S, P]) runTranspose(c *Case) *Pending {
 		p.prop = "Transpose is not the transpose"
 	}
 	p.lines = []string{f.line("TRANSPOSE", M.text())}
+	p.outcome = class
 	p.finish = func(model []string) []diff {
 		mst, mpl := splitModel(model[0])
 		if !compatible(mst, class) {
@@ -655,6 +662,7 @@ func (f *fctx[S, P]) runMisc(c *Case) *Pending {
 	if class == "panic" {
 		p.prop = c.Op + " panicked"
 	}
+	p.outcome = class
 	p.finish = func(model []string) []diff {
 		mst, mpl := splitModel(model[0])
 		if !compatible(mst, class) {
@@ -713,6 +721,7 @@ func (f *fctx[S, P]) runIdentity(c *Case) *Pending {
 	if class == "panic" {
 		p.prop = c.Op + " panicked"
 	}
+	p.outcome = class
 	p.finish = func([]string) []diff { return nil }
 	return p
 }
@@ -821,6 +830,7 @@ func (f *fctx[S, P]) runAction(c *Case) *Pending {
 	if class == "panic" {
 		p.prop = c.Op + " panicked"
 	}
+	p.outcome = class
 	p.finish = func(model []string) []diff {
 		mst, mpl := splitModel(model[0])
 		if !compatible(mst, class) {
@@ -875,6 +885,7 @@ func (f *fctx[S, P]) runPoly(c *Case) *Pending {
 	if class == "panic" {
 		p.prop = c.Op + " panicked"
 	}
+	p.outcome = class
 	p.finish = func(model []string) []diff {
 		mst, mpl := splitModel(model[0])
 		if !compatible(mst, class) {
@@ -926,6 +937,7 @@ func (f *fctx[S, P]) runGPoly(c *Case) *Pending {
 		p.prop = c.Op + " failed: " + class
 	}
 	p.lines = []string{f.line(c.Op, c.Args...)}
+	p.outcome = class
 	p.finish = func(model []string) []diff {
 		mst, mpl := splitModel(model[0])
 		if !compatible(mst, class) {
@@ -1025,6 +1037,7 @@ func (f *fctx[S, P]) runLagrange(c *Case) *Pending {
 		p.prop = c.Op + " panicked"
 	}
 	p.lines = []string{f.line(c.Op, c.Args...)}
+	p.outcome = class
 	p.finish = func(model []string) []diff {
 		mst, mpl := splitModel(model[0])
 		if !compatible(mst, class) {
@@ -1109,6 +1122,7 @@ func (f *fctx[S, P]) runVandermonde(c *Case) *Pending {
 		p.prop = c.Op + " panicked"
 	}
 	p.lines = []string{f.line(c.Op, c.Args...)}
+	p.outcome = class
 	p.finish = func(model []string) []diff {
 		mst, mpl := splitModel(model[0])
 		if !compatible(mst, class) {
@@ -1206,6 +1220,7 @@ func (f *fctx[S, P]) runBirkhoff(c *Case) *Pending {
 		p.prop = c.Op + " panicked"
 	}
 	p.lines = []string{f.line(c.Op, c.Args...)}
+	p.outcome = class
 	p.finish = func(model []string) []diff {
 		mst, mpl := splitModel(model[0])
 		if !compatible(mst, class) {
